@@ -405,6 +405,13 @@ KINDS: dict[str, tuple[Expr, bool]] = {
     "pushlit": (("pushlit", "a"), False),
     "peek": (("peek",), True),
     "peek01": (("peekslice", 0, 1), True),
+    "peekopen": (("peekslice", None, None), True),
+    "peekneg1": (("peekslice", -1, None), True),
+    "peek0open": (("peekslice", 0, None), True),
+    "peekm2m1": (("seq", ("pushlit", "a"), ("peekslice", -2, -1)), True),
+    "peek12": (("seq", ("pushlit", "a"), ("peekslice", 1, 2)), True),
+    "peek02": (("seq", ("pushlit", "a"), ("peekslice", 0, 2)), True),
+    "peekopenm1": (("seq", ("pushlit", "a"), ("peekslice", None, -1)), True),
     "peekall": (("peekall",), True),
     "pop": (("pop",), True),
     "popall": (("popall",), True),
